@@ -7,6 +7,13 @@ site is lexically inside a loop of that function, and — for push_back/emplace_
 `reserve`d earlier in the same function (then the loop does not allocate per iteration).
 `Props/C20.lean` proves `offending = []` by `decide`: no allocation site inside a loop over the inputs, hence the number
 of blocks a combinator / Wait obtains is bounded by the number of sites, for every input count n (not only sampled ones).
+
+The co_await / Wait path (coro/await*.hpp, coro/detail/await*_awaiter.hpp, algo/detail/shared_event.hpp, wait_event.hpp,
+async/detail/wait_impl.hpp) has ONE legitimate site: the per-element callback vector of `DynamicSharedEvent` (SharedFuture
+ranges need one intrusive node per element).  `selections` lists every place of the tree that names DynamicSharedEvent, with
+the condition under which it is chosen: it must be the true branch of a `std::conditional_t<k, …>` whose `k` is a
+`static constexpr` defined as `std::is_same_v<…Handle…, SharedHandle>` — selection by HANDLE type, so that no unique future
+(Future, FutureOn) ever reaches the site.  Any other shape: the translator fails (closed).
 """
 import os
 import re
@@ -17,8 +24,11 @@ E = A.ExtractError
 
 FILES = ['async/when/when.hpp', 'async/when/all.hpp', 'async/when/all_tuple.hpp', 'async/when/any.hpp', 'async/when/join.hpp',
          'async/detail/when_impl.hpp', 'async/detail/wait_impl.hpp', 'async/when_all.hpp', 'async/when_any.hpp', 'async/join.hpp',
-         'async/wait.hpp', 'async/wait_for.hpp', 'async/wait_until.hpp', 'algo/detail/wait_event.hpp']
-INCLUDES = ['yaclib/async/when_all.hpp', 'yaclib/async/when_any.hpp', 'yaclib/async/join.hpp', 'yaclib/async/wait.hpp',
+         'async/wait.hpp', 'async/wait_for.hpp', 'async/wait_until.hpp', 'algo/detail/wait_event.hpp',
+         'coro/await.hpp', 'coro/await_inline.hpp', 'coro/await_on.hpp', 'coro/await_sticky.hpp', 'coro/detail/await_awaiter.hpp',
+         'coro/detail/await_on_awaiter.hpp', 'algo/detail/shared_event.hpp']
+INCLUDES = ['yaclib/coro/await.hpp', 'yaclib/coro/await_on.hpp', 'yaclib/coro/await_sticky.hpp',
+            'yaclib/async/when_all.hpp', 'yaclib/async/when_any.hpp', 'yaclib/async/join.hpp', 'yaclib/async/wait.hpp',
             'yaclib/async/wait_for.hpp', 'yaclib/async/wait_until.hpp', 'yaclib/async/detail/when_impl.hpp']
 LOOPS = ('ForStmt', 'WhileStmt', 'DoStmt', 'CXXForRangeStmt')
 FUNCS = ('CXXMethodDecl', 'FunctionDecl', 'CXXConstructorDecl', 'CXXDestructorDecl')
@@ -28,6 +38,69 @@ VEC_OPS = ('resize', 'reserve', 'push_back', 'emplace_back')
 
 def norm(s):
     return re.sub(r'\s+', '', s)
+
+
+def _strip(txt):
+    txt = re.sub(r'/\*.*?\*/', ' ', txt, flags=re.S)
+    return re.sub(r'//[^\n]*', ' ', txt)
+
+
+def _split_top(s):
+    """split at top-level commas (angle / round / square / curly brackets nest)"""
+    out, depth, cur = [], 0, ''
+    for ch in s:
+        if ch in '<([{':
+            depth += 1
+        elif ch in '>)]}':
+            depth -= 1
+        if ch == ',' and depth == 0:
+            out.append(cur)
+            cur = ''
+        else:
+            cur += ch
+    out.append(cur)
+    return out
+
+
+def selections(repo, name='DynamicSharedEvent', home='include/yaclib/algo/detail/shared_event.hpp'):
+    """every mention of `name` outside the file that defines it: (file, alias, condition definition, only in the true branch)"""
+    out = []
+    for root in ('include', 'src'):
+        for d, _, fs in sorted(os.walk(os.path.join(repo, root))):
+            for f in sorted(fs):
+                path = os.path.join(d, f)
+                rel = os.path.relpath(path, repo)
+                if rel == home or not f.endswith(('.hpp', '.cpp', '.h', '.ipp')):
+                    continue
+                txt = _strip(open(path, errors='replace').read())
+                if name not in txt:
+                    continue
+                # statements of the file (split at `;` is enough: a using-alias has no inner `;`)
+                pos = 0
+                for stmt in txt.split(';'):
+                    start = pos
+                    pos += len(stmt) + 1
+                    if name not in stmt:
+                        continue
+                    m = re.search(r'using\s+(\w+)\s*=\s*std::conditional_t\s*<(.*)>\s*$', stmt, re.S)
+                    if not m:
+                        raise E('%s: `%s` is named outside a `using X = std::conditional_t<…>` alias: %s' % (
+                            rel, name, norm(stmt)[-160:]))
+                    alias, args = m.group(1), _split_top(m.group(2))
+                    if len(args) != 3:
+                        raise E('%s: alias %s: std::conditional_t with %d arguments' % (rel, alias, len(args)))
+                    cond, a, b = [norm(x) for x in args]
+                    if not re.fullmatch(r'\w+', cond):
+                        raise E('%s: alias %s: the condition `%s` is not a named constant' % (rel, alias, cond))
+                    # the nearest definition of the condition before the alias
+                    defs = list(re.finditer(r'static\s+constexpr\s+(?:auto|bool)\s+%s\s*=\s*([^;]*);' % cond, txt[:start + len(stmt)]))
+                    if not defs:
+                        raise E('%s: alias %s: no `static constexpr` definition of %s before it' % (rel, alias, cond))
+                    out.append((rel[len('include/yaclib/'):] if rel.startswith('include/yaclib/') else rel, alias,
+                                norm(defs[-1].group(1)), name in a and name not in b))
+    if not out:
+        raise E('`%s` is not used anywhere: the translator no longer sees the SharedFuture range path' % name)
+    return out
 
 
 def generate(repo, cfg_include, workdir):
@@ -89,8 +162,12 @@ def generate(repo, cfg_include, workdir):
                     if cn == 'reserve':
                         reserved.append(base)
                     site(cn, in_loop, base if cn in ('push_back', 'emplace_back') else None)
-            if k == 'CXXCtorInitializer' or k == 'CXXConstructExpr' or k == 'CXXTemporaryObjectExpr':
-                pass
+            if k == 'VarDecl' and re.search(r'\b(vector|deque|basic_string|unique_ptr|shared_ptr|function)\s*<', (n.get('type') or {}).get('qualType', '')):
+                # a local container / owning pointer constructed from something (a size, a range, a new-expression)
+                init = [c for c in A.kids(n) if c.get('kind') not in ('FullComment',)]
+                txt = ''.join(norm(A.text(c)) for c in init if 'range' in c)
+                if txt and not re.fullmatch(r'(\w+)?(\{\}|\(\))?', txt) and 'std::move' not in txt:
+                    site('container_var', in_loop)
             for c in A.kids(n):
                 visit(c, in_loop or k in LOOPS)
         b = A.body(fn)
@@ -124,5 +201,11 @@ def generate(repo, cfg_include, workdir):
           'def countIn (file : String) : Nat := (sites.filter fun s => s.file == file).length', '',
           '/-- number of function bodies the translator walked, per anchored file (non-vacuity of the lists above) -/',
           'def scanned : List (String × Nat) := [%s]' % ', '.join('("%s", %d)' % (f, sum(1 for k in funcs if k[0] == f)) for f in FILES), '',
+          '/-- every place that names DynamicSharedEvent (the only allocation site of the co_await / Wait path): the alias that',
+          '    selects it, the definition of the selecting constant, and whether it sits in the true branch only -/',
+          'structure Selection where', '  file : String', '  alias : String', '  cond : String', '  trueBranchOnly : Bool',
+          'deriving DecidableEq, Repr', '',
+          'def selections : List Selection := [%s]' % ', '.join(
+              '⟨"%s", "%s", "%s", %s⟩' % (f, a, c.replace('"', "'"), str(t).lower()) for f, a, c, t in selections(repo)), '',
           'end Yaclib.Extracted.AllocSites', '']
     return '\n'.join(L)
